@@ -1234,12 +1234,18 @@ class PerturbedDroplet3DAxisSym(PerturbedDropletBase):
             raise ValueError("Droplet must lie on z-axis")
 
     @enable_scalar_args
-    def interface_distance(self, θ: np.ndarray) -> np.ndarray:  # type: ignore
+    def interface_distance(  # type: ignore
+        self, θ: np.ndarray, φ: np.ndarray | None = None
+    ) -> np.ndarray:
         r"""Calculates the distance of the droplet interface to the origin.
 
         Args:
             θ (float or :class:`~np.ndarray`):
                 Azimuthal angle (in :math:`[0, \pi]`)
+            φ (float or :class:`~np.ndarray`):
+                Polar angle (in :math:`[0, 2\pi]`); ignored since the droplet is
+                axisymmetric. The argument exists so that the droplet can be used like
+                any other three-dimensional droplet, e.g., when creating phase fields.
 
         Returns:
             Array with distances of the interfacial points associated with the angles
